@@ -81,7 +81,13 @@ def norm_mode(mode):
         return None
     if isinstance(mode, str) and mode.lower() in MODES:
         return mode.lower()
+    if isinstance(mode, int) and not isinstance(mode, bool) and mode in _MODE_INDICATORS:
+        # the library also accepts its mode constants, which are the ISO mode indicators
+        return _MODE_INDICATORS[mode]
     return '?'
+
+
+_MODE_INDICATORS = {1: 'numeric', 2: 'alphanumeric', 4: 'byte', 8: 'kanji', 13: 'hanzi'}
 
 
 def spec_part(content, mode, encoding):
@@ -359,6 +365,8 @@ def check_payload_and_eci(s, parts, eci, out):
 def check_tail(s, out):
     """C13: terminator, alignment bits, pad codewords, final nibble, remainder."""
     if s.parse_error is not None:
+        # the bits after the segments cannot even be parsed as terminator / padding
+        out.append(('C13', 'stream-unparsable', {'error': s.parse_error, 'version': s.version, 'level': s.level}))
         return
     st = s.structure
     bad = []
@@ -625,8 +633,8 @@ def check_symbol(matrix, args, meta=None, props=None):
             out.append(('C02', 'function-pattern', {'n': len(fpe), 'classes': sorted({k for _, _, k in fpe}), 'first': fpe[:4],
                                                     'version': getattr(part, 'version', None)}))
         # a symbol the reference decoder cannot read satisfies none of the decoding-based properties
-        for pp in ('C01', 'C04', 'C05', 'C06', 'C07', 'C13'):
-            if on(pp) and want is not None:
+        for pp in ('C01', 'C02', 'C03', 'C04', 'C05', 'C06', 'C07', 'C13'):
+            if on(pp) and want is not None and pp != prop:
                 out.append((pp, 'unreadable', {'error': err}))
         if want is None:
             out.append(('C01', 'unreadable', {'error': err}))
